@@ -130,6 +130,21 @@ func (p *Proc) Write(fd int, data []byte) error {
 			p.signal = "broken pipe"
 			panic(procExit{-1})
 		}
+		// os/exec copies with io.Copy(w, pipe), and io.Copy hands the stream to w.ReadFrom when the
+		// writer has one. A writer's ReadFrom sees the stream piecewise here (one piece per pipe read);
+		// if it stops early WITHOUT an error (it has read all it wanted), the copier ends successfully
+		// and the read end is closed - unlike a short Write, which ends the copier with io.ErrShortWrite.
+		if rf, ok := pp.w.(io.ReaderFrom); ok {
+			n, err := rf.ReadFrom(bytes.NewReader(chunk))
+			if n > 0 {
+				*pp.accepted += n
+			}
+			if err != nil || n < int64(len(chunk)) {
+				pp.broken = true
+				pp.err = err
+			}
+			continue
+		}
 		w, err := pp.w.Write(chunk)
 		if w > 0 {
 			*pp.accepted += int64(w)
@@ -640,6 +655,8 @@ type Step struct {
 	Fd    int    `json:"fd,omitempty"`    // out
 	Data  string `json:"data,omitempty"`  // out: literal bytes
 	Fill  int64  `json:"fill,omitempty"`  // out: after Data, this many filler bytes
+	// FillWith: the filler byte (first byte of the string; default "x")
+	FillWith string `json:"fill_with,omitempty"`
 	Dur   int64  `json:"dur,omitempty"`   // sleep / hold: nanoseconds
 	Fds   []int  `json:"fds,omitempty"`   // hold
 	Code  int    `json:"code,omitempty"`  // exit
@@ -664,12 +681,21 @@ func runScript(p *Proc, args json.RawMessage) {
 	if !ok {
 		steps = sc["*"]
 	}
-	filler := bytes.Repeat([]byte("x"), 64*1024)
+	fillers := map[string][]byte{}
 	for _, st := range steps {
 		switch st.Op {
 		case "out":
 			if st.Data != "" {
 				p.Write(st.Fd, []byte(st.Data))
+			}
+			fw := st.FillWith
+			if fw == "" {
+				fw = "x"
+			}
+			filler := fillers[fw]
+			if filler == nil {
+				filler = bytes.Repeat([]byte(fw[:1]), 64*1024)
+				fillers[fw] = filler
 			}
 			for left := st.Fill; left > 0; {
 				n := int64(len(filler))
